@@ -58,6 +58,12 @@ CHECKS = {
    note="A sample of per-process hash seeds, not all. The Debug rendering of the graph is not part of the observation (the statement names binaries, diagnostics and printed text).",
    technique="property-based testing: metamorphic re-execution in fresh worker processes and on clones, hash-equality oracle (proptest generators)",
    design="C16"),
+ "C17": dict(
+   category="exploration",
+   text="Grammar-generated documents whose package references in every syntactic position are listed by the generator's own model: every listed reference except the document's own package must be reported by wac_resolver::packages, the own package never, self-instantiation must be rejected; and resolving with a stub package for every listed reference, with exactly the discovered ones, and with a superset must give the same bytes or the same rendered diagnostic. Plus every repository fixture: all packages found by walking its directory vs exactly the discovered ones.",
+   note="Stub packages are WIT packages defining the referenced interface/world names when the reference toolchain accepts them, else a small component; resolution usually stops at its first error, so the differential reaches the first few references of a document.",
+   technique="property-based testing: generator-known expected set + metamorphic superset/subset resolution (proptest)",
+   design="C17"),
 }
 
 def main():
